@@ -78,7 +78,13 @@ func genData(r *Rng, lo, hi int) []byte {
 		return b
 	}
 	var b []byte
-	switch r.Intn(10) {
+	switch r.Intn(12) {
+	case 10, 11:
+		// mixed tails: NULs then blanks / line ends, blanks then NULs, alternating - a
+		// decoder that strips one kind and then the other is not idempotent on these
+		// (seeded change C06-15)
+		tail := []string{"\x00\n", "\x00 ", "\n\x00", " \x00", "\x00\r\n", "\x00\x00 ", " \x00 ", "\r\n\x00\n"}[r.Intn(8)]
+		b = append(text(max(n-len(tail), 0)), tail...)
 	case 0:
 		b = text(n)
 	case 1:
